@@ -26,12 +26,13 @@ PROPS = {
         'thorough': [r'c06_bin_(?!ffi_(str|var)$)\w+', r'c06_un_\w+', r'c06_mul_value_32x8', r'c06_ffi_unknown_symbol', r'c06e_seq_\w+'],
         'per_harness': {r'c06_un_typeof': {'unwindset': 'memcmp.0:20'}, r'c06e_\w+': {'cap': 900}},
         'cap': {'quick': 300, 'thorough': 900},
-        'functions': ['datalog::expression::Binary::evaluate', 'datalog::expression::Unary::evaluate',
+        'functions': ['datalog::expression::Expression::evaluate (closure-free sequences)', 'datalog::expression::Binary::evaluate', 'datalog::expression::Unary::evaluate',
                       'datalog::symbol::TemporarySymbolTable::{new,get_symbol,insert}', 'derived Clone/Drop/Ord/PartialEq of datalog::Term'],
         'bounds': 'every (binary operator x left shape x right shape) cell over 14 shapes (10 term types; collections with 0 and 1 '
                   'integer element); integer/date/bool payloads symbolic at full width (i64/u64); unwind 3; '
-                  'recursion through Term bounded at 2 activations (terms one level deep)',
-        'out': 'Expression::evaluate (stack discipline, laziness, closures: not executable), string operator results on known symbols, set x set union/intersection of two non-empty sets, '
+                  'recursion through Term bounded at 2 activations (terms one level deep); Expression::evaluate against a reference stack machine: every op sequence of length 0..2 over '
+                  '{int value, bool value, negate, sub} and every sequence of length 3 over {int value, bool value, sub} plus three less-than shapes, payloads symbolic (i64 / bool), unwind 5',
+        'out': 'in Expression::evaluate: closures and laziness (&&, ||, all, any, shadowing), variable lookups in the bindings map, sequences of 4 and more operations, a unary operator in third position (no verdict within 300-600 s / 10 GB); string operator results on known symbols, set x set union/intersection of two non-empty sets, '
                'lookups (get/contains) with symbolic keys, 64 x 64 bit products, nested collections, registered extern functions, regex semantics; '
                'the two rows (extern call, left operand string / variable) are not run: no verdict in 600 s for no reason I could isolate',
     },
@@ -106,7 +107,7 @@ PROPS = {
         'per_harness': {r'c0[278]x?_\w+': {'unwindset': 'memcmp.0:200'}},
         'jobs': 4, 'mem_gb': 24,
         'functions': ['format::SerializedBiscuit::{new,new_inner,append,append_serialized,seal,last_block,to_proto}', 'crypto::sign_authority_block', 'format::convert::token_block_to_proto_block + prost encoding (empty blocks)', 'format::block_signature_version', 'crypto::{sign_block,generate_block_signature_payload_v0,generate_block_signature_payload_v1,generate_seal_signature_payload_v0}', 'crypto::TokenNext::keypair'],
-        'bounds': 'containers of 1..2 blocks (signature versions 0/1), one appended block (first- or third-party, ed25519 or secp256r1 next key, ed25519 or secp256r1 proof secret) or one seal; payloads 2 bytes, signatures 3 bytes, all bytes / key objects / signatures returned by the primitive symbolic',
+        'bounds': 'containers of 1..2 blocks (signature versions 0/1, last block first- or third-party for seal), one appended block (first- or third-party, ed25519 or secp256r1 next key, ed25519 or secp256r1 proof secret) or one seal; payloads 2 bytes, signatures 3 bytes, all bytes / key objects / signatures returned by the primitive symbolic',
         'stubs': ['crypto::KeyPair::sign -> oracle (symbolic signature, query recorded)', 'ed25519 public-key derivation -> uninterpreted function', 'p256 PublicKey::to_bytes -> stand-in', 'alloc::fmt::format'],
         'out': 'the real signatures; non-empty Datalog blocks (only empty blocks go through token::Block -> protobuf here); byte-exact protobuf round trips, base64, UnverifiedBiscuit; together with C01 (verification demands the same specified payloads) this gives "what the API signs is what verification accepts" for these operations only',
         'level_text': 'Sign/verify symmetry for the container operations: bounded symbolic execution with the signing primitive replaced by a recording oracle; the signed message equals an independent re-implementation of the specified layout.',
